@@ -920,6 +920,15 @@ func (bc *Blockchain) resetRAMState(height uint32, resetHeaders bool) error {
 	if err != nil {
 		return fmt.Errorf("failed to get current block: %w", err)
 	}
+	// The DAO returns a block with hashes of transactions only, while the
+	// top block is served to contracts and RPC clients as is.
+	for _, tx := range block.Transactions {
+		stx, _, err := bc.dao.GetTransaction(tx.Hash())
+		if err != nil {
+			return fmt.Errorf("failed to get transaction %s of the current block: %w", tx.Hash().StringLE(), err)
+		}
+		*tx = *stx
+	}
 	bc.topBlock.Store(block)
 	atomic.StoreUint32(&bc.blockHeight, height)
 	atomic.StoreUint32(&bc.persistedHeight, height)
